@@ -42,7 +42,73 @@ fn strip_ghost_decls(json_text: &str) -> String {
     s
 }
 
+/// raise items of the generated family: slot `n` (1-based) owns ghost variable n and marker Wn
+const RAISE_ITEMS: &[&str] = &["plain", "warn", "warn-cond", "warn-glue", "warn-fn", "warn-choice", "warn-choice-text"];
+const TERMINATORS: &[&str] = &["end", "bad-divert", "run-out"];
+
+fn raise_item(a: usize, n: usize) -> (String, String) {
+    match RAISE_ITEMS[a] {
+        "plain" => (format!("Plain {n}.\n"), String::new()),
+        "warn" => (format!("W{n}:{{ghost{n}}} warn.\n"), String::new()),
+        "warn-cond" => (format!("W{n}:{{ghost{n} > 0: x|y}} cond.\n"), String::new()),
+        "warn-glue" => (format!("W{n}:{{ghost{n}}} <>\n glued {n}.\n"), String::new()),
+        "warn-fn" => (format!("Fn {{fw{n}()}} done.\n"), format!("=== function fw{n}() ===\nW{n}:{{ghost{n}}}\n~ return 3\n")),
+        "warn-choice" => (format!("* a{n}\n    W{n}:{{ghost{n}}} in a.\n* b{n}\n    Plain b{n}.\n- Gathered {n}.\n"), String::new()),
+        _ => (format!("* c{n} [W{n}:{{ghost{n}}}]\n    Body c{n}.\n- After c{n}.\n"), String::new()),
+    }
+}
+
+/// generated family: k raise slots x a terminator (normal end, error by a bad divert variable, error
+/// by running out of content)
+pub fn family_count(k: usize) -> usize {
+    RAISE_ITEMS.len().pow(k as u32) * TERMINATORS.len()
+}
+
+pub fn family_nth(k: usize, mut i: usize) -> (String, String) {
+    let term = i % TERMINATORS.len();
+    i /= TERMINATORS.len();
+    let mut name = format!("gen-{}", TERMINATORS[term]);
+    let mut body = String::from("Start.\n");
+    let mut tail = String::new();
+    for slot in 0..k {
+        let a = i % RAISE_ITEMS.len();
+        i /= RAISE_ITEMS.len();
+        let (b, t) = raise_item(a, slot + 1);
+        name.push('-');
+        name.push_str(RAISE_ITEMS[a]);
+        body.push_str(&b);
+        tail.push_str(&t);
+    }
+    let ending = match TERMINATORS[term] {
+        "end" => "Last.\n-> END\n".to_string(),
+        "bad-divert" => "E1: next fails.\n-> bad1\n".to_string(),
+        _ => "-> k\n=== k ===\nE9: last line, then the content runs out.\n".to_string(),
+    };
+    (name, format!("VAR ghost1 = 0\nVAR ghost2 = 0\nVAR ghost3 = 0\nVAR bad1 = 0\n{body}{ending}{tail}"))
+}
+
 pub fn programs() -> Vec<Rc<Prog>> {
+    programs_for(2)
+}
+
+pub fn programs_for(max_slots: usize) -> Vec<Rc<Prog>> {
+    let mut v = hand_written();
+    for k in 1..=max_slots {
+        for i in 0..family_count(k) {
+            let (name, src) = family_nth(k, i);
+            if let CompileOutcome::Ok(p) = Prog::from_source(&name, &src) {
+                let mut q = Prog::from_json(&name, &strip_ghost_decls(&p.json));
+                q.functions = p.functions.clone();
+                q.plain_knots = p.plain_knots.clone();
+                q.source = None;
+                v.push(Rc::new(q));
+            }
+        }
+    }
+    v
+}
+
+fn hand_written() -> Vec<Rc<Prog>> {
     let mut v = vec![];
     for (name, src) in SOURCES {
         if let CompileOutcome::Ok(p) = Prog::from_source(name, src) {
@@ -250,16 +316,23 @@ fn judge_path(prog: &Rc<Prog>, setup: &Setup, hist: &[Op], stats: &mut Stats) {
 pub fn run(tier: Tier) -> i32 {
     let started = std::time::Instant::now();
     let (depth, secs) = match tier {
-        Tier::Quick => (10, 45),
-        Tier::Thorough => (14, 600),
+        Tier::Quick => (12, 45),
+        Tier::Thorough => (16, 900),
     };
-    let n_progs = programs().len();
+    // programs are compiled once; every worker rebuilds its own (Rc) instance from the JSON text
+    let specs: Vec<(String, String, Vec<(String, usize)>, Vec<String>)> =
+        programs_for(if tier == Tier::Quick { 2 } else { 3 }).iter().map(|p| (p.name.clone(), p.json.clone(), p.functions.clone(), p.plain_knots.clone())).collect();
+    let n_progs = specs.len();
     let cases: Vec<(usize, bool)> = (0..n_progs).flat_map(|i| [(i, false), (i, true)]).collect();
     let ctl = RunCtl::new(secs);
     let (mut stats, done) = par_cases(cases.len(), &ctl, |c, st| {
         let (pi, handler) = cases[c];
-        let progs = programs();
-        let p = &progs[pi];
+        let (name, js, functions, plain_knots) = &specs[pi];
+        let mut q = Prog::from_json(name, js);
+        q.functions = functions.clone();
+        q.plain_knots = plain_knots.clone();
+        q.source = None;
+        let p = &Rc::new(q);
         let setup = Setup { bind_externals: None, allow_fallbacks: true, handler, observers: vec![], seed: None };
         // alphabet: play; after an error (cannot continue, no choices): Reset once, or redirect once
         let knot = p.plain_knots.first().cloned();
